@@ -322,10 +322,10 @@ def check_variant(acc, name, base_s, base_res, devs, inplace=False):
     if res[0] != 'ok':
         acc.violation(f'C07/{res[0]}-fails/{res[1]}/{names}', 're-expressing an input never changes whether construction and simulation succeed', case,
                       {'phase': res[0], 'exception': res[1], 'message': res[2], 'units': [u for _, _, u in devs]})
-        acc.outcomes['failed'] += 1
+        acc.outcomes[('failed', name)] += 1
         return
     d = differ(base_res, res)
-    acc.outcomes['equal' if d is None else 'differs'] += 1
+    acc.outcomes[('equal' if d is None else 'differs', name, '+'.join(sorted(k for _, k, _ in devs)), 'in-place' if inplace else 'new-object')] += 1
     if d is not None:
         acc.violation(f'C07/{d[0]}/{names}', 're-expressing an input changes no physical output beyond rounding', case,
                       dict(d[1], units=[u for _, _, u in devs]))
